@@ -12,7 +12,7 @@ RULE = (
     "limit; payload lengths from a mixture hitting 16-byte block and 40-byte line boundaries, contents random / all-zero / trailing 00 runs; "
     "declared length None/1/len-1/len/random; session key default/random/zero-tailed; stream vs path route; MAC check on/off) are written "
     "with Bf3File.write_file and read back with Bf3File.read_file; oracle = equality of comments, component count/order, description items in order, "
-    "blob, actual_len, encrypt flag. 'grid' enumerates every payload length 1..200 x {random, zero, zero-tail} on both routes. "
+    "blob, actual_len, encrypt flag; then the object read back and the original object are each written once more and must give the first text again. 'grid' enumerates every payload length 1..200 x {random, zero, zero-tail} on both routes. "
     "Non-trivial = at least one component and (payload length not a multiple of 16, or trailing zero run, or >= 2 hex lines, or >= 1 comment); distinct by case hash."
 )
 ASSUMPTIONS = [
@@ -67,6 +67,18 @@ def check(case, rec):
             if o[field] != want[field]:
                 raise Violation("component %d field %s differs after round trip: wrote %r read %r" % (
                     i, field, _short(want[field]), _short(o[field])))
+
+
+    # object re-use: the object that was read is "the same file" - written again (same key, same route) it must give the same text, and the
+    # ORIGINAL object written a second time must still give the text of its first write (nothing consumed or cached by writing/reading)
+    for what, obj in (("the object read back", g), ("the original object, second write", f)):
+        try:
+            text2, _ = sut.write_text(lambda target: obj.write_file(target, **kw), case["route"])
+        except Exception as e:
+            raise Violation("writing %s raised %s: %s" % (what, type(e).__name__, e))
+        if text2 != text:
+            n = next((i for i in range(min(len(text), len(text2))) if text[i] != text2[i]), min(len(text), len(text2)))
+            raise Violation("writing %s gives another text than the first write (first difference at character %d: %r vs %r)" % (what, n, text[max(0, n - 20): n + 20], text2[max(0, n - 20): n + 20]))
 
 
 def _short(v):
